@@ -204,7 +204,7 @@ func c17Files(big bool) (string, string) {
 	bb.WriteString("meal:\n  x: 2\n  y: -3\nmeal2:\n  meal: 2\n  x: 1\n")
 	days := 3
 	if big {
-		days = 400
+		days = 1300 // more days than any read-ahead a command may keep
 	}
 	for i := 0; i < days; i++ {
 		lb.WriteString(fmt.Sprintf("%s:\n  meal: %d\n  meal2: 1\n  unknown/food: 2\n  x: 1\n", vFmtDay(i, ""), i%7+1))
@@ -280,7 +280,7 @@ func checkC17CLI(c c17CLICase, ctx *vCtx) *vFailure {
 		case <-time.After(60 * time.Second):
 			_ = p.Process.Kill()
 			<-done
-			vFault("real binary timed out writing to a size-limited file")
+			vHang("the real binary did not terminate within 60 s writing to a size-limited file")
 		}
 		ctx.Run(1)
 		if st, err := os.Stat(outp); err == nil && st.Size() >= int64(len(r.Stdout)) {
@@ -322,7 +322,7 @@ func checkC17CLI(c c17CLICase, ctx *vCtx) *vFailure {
 			_ = p.Process.Kill()
 			<-done
 			closer()
-			vFault("real binary timed out writing to %s", c.Sink)
+			vHang("the real binary did not terminate within 60 s writing to %s", c.Sink)
 		}
 		closer()
 		ctx.Run(1)
